@@ -185,6 +185,43 @@ theorem count_composes (a : Arr Bucket) (now0 : Nat) (ops : List (Op Bucket)) (n
     | nil => rfl
     | cons o r ih => cases o <;> simp [addsOf] at ih ⊢ <;> exact ih
 
+/-- **`BucketLeapArray.MinRt` / `MaxConcurrency`** (`aMinRt`, `aMaxConc`: refresh, then all valid buckets): the minimum
+RT (60000 when nothing was recorded, no clamp) and the peak concurrency of the reference over the last `n` aligned
+buckets — in particular nothing older than one array interval is seen, however long the array was idle. -/
+theorem ops_array_minRt_maxConc_eq_ref (n L now0 : Nat) (hn : 0 < n) (hL : 0 < L) (h0 : 0 < now0)
+    (ops : List (Op Bucket)) (mono : MonoOps now0 ops) (now : Nat) (hnow : ∀ o ∈ ops, o.time ≤ now)
+    (hnow0 : now0 ≤ now) :
+    (aMinRt (runOps (mk n L now0) ops) now).2 = (refW L (addsOf ops) (cbs L now + L - n * L) (cbs L now)).minRt ∧
+    (aMaxConc (runOps (mk n L now0) ops) now).2 = (refW L (addsOf ops) (cbs L now + L - n * L) (cbs L now)).mc := by
+  unfold aMinRt aMaxConc aTotal
+  dsimp only
+  rw [ops_total_eq_ref n L now0 hn hL h0 ops mono now hnow hnow0]
+  exact ⟨rfl, rfl⟩
+
+/-- **`BucketLeapArray.Values(now)`** (`aValues`): the returned buckets have distinct aligned starts inside
+`[cbs now + L − n·L, cbs now]`, each holds exactly the recordings of its own bucket (`refW b b`), and an aligned
+bucket of that window that is not returned has no recordings — so, untouched buckets aside, the list is the
+per-bucket reference of the last `n` aligned buckets (what the driver's `spec` mode prints). -/
+theorem ops_values_eq_ref (n L now0 : Nat) (hn : 0 < n) (hL : 0 < L) (h0 : 0 < now0)
+    (ops : List (Op Bucket)) (mono : MonoOps now0 ops) (now : Nat) (hnow : ∀ o ∈ ops, o.time ≤ now)
+    (hnow0 : now0 ≤ now) :
+    let vs := (aValues (runOps (mk n L now0) ops) now).2
+    (vs.map (·.start)).Nodup ∧
+    (∀ s ∈ vs, L ∣ s.start ∧ cbs L now + L - n * L ≤ s.start ∧ s.start ≤ cbs L now ∧
+      s.val = refW L (addsOf ops) s.start s.start) ∧
+    (∀ b, L ∣ b → cbs L now + L - n * L ≤ b → b ≤ cbs L now →
+      (∃ s ∈ vs, s.start = b) ∨ refW L (addsOf ops) b b = 0) :=
+  values_of_reach _ n L _ _ now (reach_ops n L now0 hn hL h0 ops mono now hnow hnow0) (Nat.lt_of_lt_of_le h0 hnow0)
+
+/-- every array-level read leaves the same array behind: the call sequence extended by one refresh
+(`count_composes` then says the `ops_…` theorems keep applying) -/
+theorem array_reads_compose (a : Arr Bucket) (ops : List (Op Bucket)) (now : Nat) (ev : Ev) :
+    (aCount (runOps a ops) now ev).1 = runOps a (ops ++ [Op.refresh now]) ∧
+    (aValues (runOps a ops) now).1 = runOps a (ops ++ [Op.refresh now]) ∧
+    (aMinRt (runOps a ops) now).1 = runOps a (ops ++ [Op.refresh now]) ∧
+    (aMaxConc (runOps a ops) now).1 = runOps a (ops ++ [Op.refresh now]) := by
+  rw [runOps_append]; exact ⟨rfl, rfl, rfl, rfl⟩
+
 /-- **`GetMaxOfSingleBucket`** (`vMaxBucket`): the largest per-bucket count of `ev` among the view's buckets equals
 the maximum, over the aligned bucket starts `b` of the window (`viewStarts`: the list the reference enumerates,
 `b ∈ viewStarts L Iv now ↔ L ∣ b ∧ cbs now + L − Iv ≤ b ≤ cbs now` by `mem_viewStarts`), of the reference count
